@@ -2332,6 +2332,7 @@ bool Parser::parseDirectDeclaratorSuffix(DeclaratorSyntax*& decltor,
                         case SyntaxKind::Keyword_const:
                         case SyntaxKind::Keyword_volatile:
                         case SyntaxKind::Keyword_restrict:
+                        case SyntaxKind::Keyword__Atomic:
                         case SyntaxKind::Keyword_ExtGNU___attribute__:
                             if (!parseTypeQualifiersAndAttributes(arrDecltorSx->qualsAndAttrs2_)) {
                                 skipTo(SyntaxKind::CloseBracketToken);
